@@ -1,6 +1,8 @@
 package main
 
 import (
+	"go/token"
+	"strings"
 	"fmt"
 	"go/types"
 
@@ -21,6 +23,8 @@ func runC17(c *Ctx) {
 	p, r := c.P, c.R
 	w := c.ws()
 	c.rule("R17.1", "every blocking socket read is preceded by renewing the read deadline")
+	c.rule("R17.8", "the deadline renewal really sets the deadline whenever a timeout is configured")
+	c.renewalUnconditional("R17.8")
 	c.rule("R17.2", "pong and ping handlers signal peer activity with a non-blocking send; the activity arm renews the read deadline")
 	c.rule("R17.3", "the ping sender loops on the configured interval, writes pings under the write lock and honours its stop signal")
 	c.rule("R17.4", "keepalive is installed in the loop prologue and after every socket swap")
@@ -291,4 +295,63 @@ func (c *Ctx) activitySignalRule(rule string) {
 		}
 	}
 
+}
+
+// renewalUnconditional: the function that renews the read deadline really sets it whenever a timeout is
+// configured: every path from its entry to a return passes SetReadDeadline or takes the "no timeout"
+// side of a test of the timeout value. A renewal that can be skipped for another reason (a coalescing
+// timestamp kept per connection object, say) leaves a freshly dialled socket without any deadline, and a
+// peer that then goes silent is never noticed.
+func (c *Ctx) renewalUnconditional(rule string) {
+	p := c.P
+	w := c.ws()
+	if w.ResetDL == nil {
+		c.und(rule, "read-deadline renewal function", "-", "not resolved")
+		return
+	}
+	fn := w.ResetDL
+	isSet := func(in ssa.Instruction) bool {
+		ci, ok := in.(ssa.CallInstruction)
+		return ok && strings.HasPrefix(calleeName(ci), "(*"+gorilla+".Conn).") && methodOf(ci) == "SetReadDeadline"
+	}
+	isDuration := func(v ssa.Value) bool { return isNamed(v.Type(), "time", "Duration") }
+	// edges on which a time.Duration value is known to be <= 0 (no timeout configured)
+	noTimeoutEdge := func(b *ssa.BasicBlock, k int) bool {
+		iff, ok := b.Instrs[len(b.Instrs)-1].(*ssa.If)
+		if !ok {
+			return true
+		}
+		bo, ok := curFacts.aliasOf(iff.Cond).(*ssa.BinOp)
+		if !ok {
+			return true
+		}
+		op, L, R := bo.Op, bo.X, bo.Y
+		if !isDuration(L) && isDuration(R) {
+			op, L, R = flip(op), R, L
+		}
+		if !isDuration(L) {
+			return true
+		}
+		kst, isK := constInt(stripConvInt(R))
+		if !isK || kst != 0 {
+			return true
+		}
+		if k == 1 {
+			op = negate(op)
+		}
+		// taken edge says: L op 0
+		if op == token.LEQ || op == token.EQL || op == token.LSS {
+			return false // "no timeout" side: nothing to renew, a legitimate skip
+		}
+		return true
+	}
+	construct := fmt.Sprintf("%s: renewal happens whenever a timeout is configured", fname(fn))
+	s := newIPSearch(isReturn, isSet)
+	s.edgeOK = noTimeoutEdge
+	s.seen[fmt.Sprintf("%p|", fn.Blocks[0])] = true
+	if s.scan(fn.Blocks[0], 0, nil) {
+		c.bad(rule, construct, c.ipos(s.found), "the renewal function can return without setting the read deadline although a timeout is configured (e.g. because a deadline was set a moment ago on this connection object): after a reconnect the new socket has no read deadline, and a peer that goes silent before its first message is never noticed")
+	} else {
+		c.ok(rule, construct, p.pos(fn.Pos()), "SetReadDeadline on every path except 'no timeout'")
+	}
 }
